@@ -12,14 +12,14 @@ HARNESS = "h_C13.cpp"
 VARIANTS = {"quick": ["O1"], "thorough": ["O1", "asan"]}
 AXIOMS_ALLOWED = []
 REQUIRED_THEOREMS = ["C13_known_names_true_nothrow", "C13_never_throws", "C13_exogenous_with_model_true", "C13_exogenous_true_after_any_word",
-                     "C13_exogenous_supplied_true_refuted", "C13_modes_are_linear_propagate",
+                     "C13_exogenous_supplied_true", "C13_modes_are_linear_propagate",
                      "C13_exogenous_without_model_false_unchanged", "C13_unknown_false_unchanged", "C13_flags_match_commands",
                      "C13_prediction_reported", "C13_skipped_prediction_is_identity", "C13_skipped_correction_is_identity",
                      "C13_identity_after_prediction_on", "C13_identity_after_correction_on", "C13_identity_by_rule",
                      "C13_correction_identity_by_rule", "C13_reversible", "C13_all_off_restores_fresh_state",
                      "C13_reversible_all_off", "C13_reachable_predictions"]
 RULE = ("command words over {prediction,state,exogenous,correction,all,<bogus>} x {on,off} on assembled filters (GaussianFilter with KF / UKF steps, "
-        "SIS with bootstrap / Gaussian-particle steps), with and without exogenous model. quick: every word of length <= 3 with predict and correct "
+        "SIS with bootstrap / Gaussian-particle steps; also a bootstrap filter whose exogenous model is given to the DrawParticles constructor), with and without exogenous model. quick: every word of length <= 3 with predict and correct "
         "after every command on all 8 configurations, every word of length 4 (final flags, answers, one predict and one correct at the end) on all 8 "
         "configurations, and a random sample of length-4..8 words with full interleaving; thorough: additionally every word of length 5 on all 8 "
         "configurations, every word of length 6 on the 4 (family, exogenous) combinations, random words of length <= 30 with random interleaving. "
@@ -38,10 +38,11 @@ TIMEOUT = 3000
 NAMES = ["prediction", "state", "exogenous", "correction", "all"]
 BOGUS = ["bogus", "Prediction", "states", "al", "correct"]
 KINDS = ["kf", "ukf", "boot", "gpf"]
-# Probe of the finding "DrawParticles(state_model, exogenous_model) stores the exogenous model in a member nothing reads":
-# a bootstrap filter assembled that way (case kind boot2). Reported under the signature below until repaired or listed
-# in known_findings.json.
+# Case kind boot2: a bootstrap filter whose exogenous model is handed to DrawParticles(state_model, exogenous_model).
+# Before "fix: DrawParticles attaches the exogenous model it is constructed with" (567e2e7) that constructor only stored the
+# model in a member nothing reads (old transcription and refuted witness: C13_Regress.v). The model now says it attaches it.
 PROBE_DRAWPARTICLES_CTOR = True
+DRAWPARTICLES_CTOR_ATTACHES = True
 SIG_DRAWPARTICLES = "C13:exogenous-model-ignored:DrawParticles-two-argument-ctor"
 
 
@@ -107,9 +108,16 @@ def generate(rng, tier):
     for (k, e) in cfgs:
         cases.append(enum_case(rng, nid(), k, e, [], 4))
     if PROBE_DRAWPARTICLES_CTOR:
-        for e, w in [(1, []), (1, ["exogenous:on"]), (1, ["exogenous:on", "prediction:on", "all:off"]), (1, ["state:on", "exogenous:off"]),
-                     (0, ["exogenous:on", "state:on"])]:
+        # the two-argument DrawParticles constructor: every word of length <= 2 fully interleaved, every word of length 4 packed
+        for L in range(0, 3):
+            for w in itertools.product(A, repeat=L):
+                cases.append(word_case(rng, nid(), "boot2", 1, list(w), "all"))
+                cases[-1].meta["attach"] = int(DRAWPARTICLES_CTOR_ATTACHES)
+        for e, w in [(1, ["exogenous:on", "prediction:on", "all:off"]), (1, ["state:on", "exogenous:off"]), (0, ["exogenous:on", "state:on"])]:
             cases.append(word_case(rng, nid(), "boot2", e, w, "all"))
+            cases[-1].meta["attach"] = int(DRAWPARTICLES_CTOR_ATTACHES)
+        cases.append(enum_case(rng, nid(), "boot2", 1, [], 4))
+        cases[-1].meta["attach"] = int(DRAWPARTICLES_CTOR_ATTACHES)
     # random longer words with other bogus names and random interleaving
     nrand, maxlen = (1500, 8) if tier == "quick" else (20000, 30)
     for _ in range(nrand):
@@ -173,7 +181,7 @@ def norm_model_token(tok, exo):
 
 
 def compare(c, impl, model):
-    exo = bool(int(c.meta["exo"])) and c.kind != "boot2"     # boot2: the state model has no exogenous model (faithful model)
+    exo = bool(int(c.meta["exo"])) and (c.kind != "boot2" or str(c.meta.get("attach", "0")) == "1")
     key = "enum" if c.meta["mode"] == "enum" else "trace"
     a, b = impl.get(key), model.get(key)
     if a is None or b is None:
@@ -336,8 +344,9 @@ def oracle(c, impl, model):
         if cfg == "boot2":
             # the code as it is: no exogenous model as far as the skip machinery is concerned -- must be clean in that reading;
             # the property's reading (an exogenous model was supplied): every failing clause is the one finding
-            v += check_word(None, cfg, 0, cmds, answers, flag_seq, steps)
-            if exo:
+            attached = str(c.meta.get("attach", "0")) == "1"
+            v += check_word(None, cfg, exo if attached else 0, cmds, answers, flag_seq, steps)
+            if exo and not attached:
                 w = [x for x in check_word(None, cfg, 1, cmds, answers, None, steps) if "wrong-answer" in x[0]]
                 if w:
                     v.append((SIG_DRAWPARTICLES, "bootstrap filter built with DrawParticles(state_model, exogenous_model): %s; the model is "
@@ -345,7 +354,8 @@ def oracle(c, impl, model):
         else:
             v += check_word(None, cfg, exo, cmds, answers, flag_seq, steps)
     else:
-        v += check_enum(c, impl.get("enum") or [], cfg, exo)
+        eff = exo if (cfg != "boot2" or str(c.meta.get("attach", "0")) == "1") else 0
+        v += check_enum(c, impl.get("enum") or [], cfg, eff)
     # one report per signature
     seen, out = set(), []
     for s, d in v:
